@@ -62,6 +62,13 @@ func genC04(seed uint64, tier string) C04Cfg {
 	// the statement quantifies over every interleaving of deliveries: a quarter of the runs also let a link
 	// reorder its own messages (an application may dispatch each incoming message on its own goroutine)
 	c.NonFIFO = r.Bool(0.25)
+	// a third of the runs: classification of some messages takes simulated time, so that the handling of
+	// messages of different links (and local calls, e.g. the late starter's first send) overlaps
+	if rd := prng.Derive(seed, "classify-delay"); rd.Bool(0.35) {
+		d := rd.Range(1, 30)
+		c.Deploy.SP.ClassifyDelayMs = d
+		c.Deploy.SignSP.ClassifyDelayMs = d
+	}
 	return c
 }
 
